@@ -110,6 +110,20 @@ Example C13_client_acquire_example :
   = Some ([[0]; [0]; [1]], [[0;0]])%Z.
 Proof. vm_compute. reflexivity. Qed.
 
+(* ---- closing and reopening the database between lock events (a database
+   copy or an archive does that while a client holds the lock) is invisible to
+   the lock protocol: a history with Reopen events ends in the state, and tells
+   every client exactly, what the history without them does.  Every theorem
+   above therefore also holds of histories with reopens. ---- *)
+Theorem C13_reopen_transparent : forall st xs, xrun st xs = run st (erase xs).
+Proof. intros st xs. apply L_xrun_erase. Qed.
+Print Assumptions C13_reopen_transparent.
+
+Example C13_reopen_example :
+  snd (xrun (linit 2) [Ev (Acquire 0); Reopen; Ev (Acquire 1); Ev (Release 0); Reopen; Ev (Poll 1)])
+  = [ToldYours 0; ToldBusy 1; Released 0 true; Closed 0; ToldYours 1].
+Proof. vm_compute. reflexivity. Qed.
+
 (* non-vacuity: contention, a drop while holding, a drop while waiting *)
 Example C13_example :
   let evs := [Acquire 0; Acquire 1; Acquire 2; Drop 2; Poll 2; Drop 0; Poll 1] in
